@@ -16,6 +16,7 @@ import (
 	"runtime"
 	"strings"
 	"sync"
+	"sync/atomic"
 	"testing"
 	"testing/synctest"
 	"time"
@@ -183,7 +184,10 @@ func (r *c15Run) apply(s c15Stim) {
 			})
 		case 1:
 			em := r.emitters[i]
-			r.op(1, i, func() error { return em.Close() })
+			// Close is called twice (e.g. an explicit Close plus a deferred one): the
+			// second call must be a no-op that reports an error; the operation's
+			// result is the first call's
+			r.op(1, i, func() error { err := em.Close(); _ = em.Close(); return err })
 		case 2:
 			e := r.cfg.emits[i]
 			em := r.emitters[e.em]
@@ -212,7 +216,17 @@ func (r *c15Run) apply(s c15Stim) {
 			})
 		case 4:
 			sub := r.subs[i]
-			r.op(4, i, func() error { return sub.Close() })
+			// two concurrent Close calls plus a later third one: Close is once-like, no
+			// caller may get its return before the subscription is detached, so the
+			// operation "returns" as soon as ANY of the calls has returned
+			r.op(4, i, func() error {
+				done := make(chan error, 2)
+				go func() { done <- sub.Close() }()
+				go func() { done <- sub.Close() }()
+				err := <-done
+				go func() { <-done; _ = sub.Close() }()
+				return err
+			})
 		}
 	}
 }
@@ -596,6 +610,24 @@ var c15Deadlock2Cfg = c15Cfg{ntypes: 2,
 
 var c15Deadlock2Stims = []c15Stim{{0, 0, 0}, {0, 0, 1}, {0, 3, 2}, {0, 2, 0}, {0, 3, 0}, {0, 2, 1}, {0, 3, 1}, {0, 2, 2}, {2, 2, 0}, {2, 2, 0}}
 
+// two emitters of one type, one of them closed (twice) while the type has no subscriber,
+// then Subscribe and an Emit on the emitter that is still open: the event must arrive
+var c15DblCloseCfg = c15Cfg{ntypes: 1,
+	emitters: []c15Emitter{{0, false}, {0, false}},
+	subs:     []c15Sub{{false, 1, []int{0}}},
+	emits:    []c15Emit{{1, 100}}}
+
+var c15DblCloseStims = []c15Stim{{0, 0, 0}, {0, 0, 1}, {0, 1, 0}, {0, 3, 0}, {0, 2, 0}, {2, 0, 0}, {2, 0, 0}}
+
+// Close of a subscription (two concurrent calls) while an Emit of its type is stalled on
+// another, slow subscription: no Close call may return before the sink is detached
+var c15Close2Cfg = c15Cfg{ntypes: 1,
+	emitters: []c15Emitter{{0, false}},
+	subs:     []c15Sub{{false, 0, []int{0}}, {false, 0, []int{0}}},
+	emits:    []c15Emit{{0, 100}, {0, 101}}}
+
+var c15Close2Stims = []c15Stim{{0, 0, 0}, {0, 3, 0}, {0, 3, 1}, {0, 2, 0}, {0, 4, 1}, {2, 1, 0}, {2, 0, 0}, {0, 2, 1}, {2, 0, 0}, {2, 0, 0}}
+
 func TestVerifNothing(t *testing.T) {}
 
 func TestVerifC15(t *testing.T) {
@@ -634,6 +666,14 @@ func TestVerifC15(t *testing.T) {
 			if i >= ncorpus-2 {
 				// the last two attempts: the crossing-Subscribe deadlock (known finding)
 				ccfg, cstims = c15Deadlock2Cfg, c15Deadlock2Stims
+			} else if i >= ncorpus-6 {
+				// repeated Emitter.Close / concurrent Subscription.Close scenarios
+				c15MaxInFlight, c15SpinBeforeStimulus = maxInFlight, 0
+				if i%2 == 0 {
+					ccfg, cstims = c15DblCloseCfg, c15DblCloseStims
+				} else {
+					ccfg, cstims = c15Close2Cfg, c15Close2Stims
+				}
 			}
 			line, _, _ := c15Execute(t, ccfg, func(r *c15Run) (c15Stim, bool) {
 				for k < len(cstims) {
@@ -813,4 +853,159 @@ func c15CrashNote(r *c15Run, s c15Stim) {
 	}
 	sb.WriteByte('\n')
 	os.WriteFile(p+".crash", []byte(sb.String()), 0o644)
+}
+
+// ---- free-running race stream (outside synctest: real parallelism) -------------------------
+// The quiescence-driven runs cannot schedule two bus calls inside each other's critical gaps.
+// Here two calls are released together, many times: a Subscribe (or Emitter()) racing with the
+// call that makes the node of its type droppable, and a wildcard Subscribe racing with the
+// Close of the only other wildcard subscription.  Afterwards an Emit that starts after the
+// racing Subscribe returned must reach the new subscription.  A miss is written as a wire
+// line (one sequential order consistent with what was issued) that the monitor rejects.
+func c15RaceLabels(ops ...[4]int64) [][4]int64 { return ops }
+
+func c15RacePair(a, b func(), spin int) {
+	var start atomic.Bool
+	done := make(chan struct{})
+	go func() {
+		for !start.Load() {
+		}
+		b()
+		close(done)
+	}()
+	for i := 0; i < spin; i++ {
+		_ = start.Load()
+	}
+	start.Store(true)
+	a()
+	<-done
+}
+
+var c15RaceForce = os.Getenv("C15_RACE_FORCE") != "" // self-test: report a miss although the event arrived
+
+func c15RaceTyped(it int, viaEmitter bool) (line []int64, miss bool) {
+	bus := NewBus(withLogger(slog.New(slog.DiscardHandler)))
+	var s1 event.Subscription
+	var e1 event.Emitter
+	if viaEmitter {
+		e1, _ = bus.Emitter(new(c15EvA))
+	} else {
+		s1, _ = bus.Subscribe(new(c15EvA), BufSize(1))
+	}
+	var s2 event.Subscription
+	c15RacePair(func() {
+		if viaEmitter {
+			e1.Close()
+		} else {
+			s1.Close()
+		}
+	}, func() { s2, _ = bus.Subscribe(new(c15EvA), BufSize(1)) }, it%64)
+	em, _ := bus.Emitter(new(c15EvA))
+	em.Emit(c15EvA{100})
+	select {
+	case <-s2.Out():
+	default:
+		miss = true
+	}
+	em.Close()
+	s2.Close()
+	if !miss && !c15RaceForce {
+		return nil, false
+	}
+	var cfg c15Cfg
+	var labels [][4]int64
+	if viaEmitter {
+		// emitters 0 (closed while Subscribe ran), 1 (fresh); subscription 0
+		cfg = c15Cfg{ntypes: 1, emitters: []c15Emitter{{0, false}, {0, false}}, subs: []c15Sub{{false, 1, []int{0}}}, emits: []c15Emit{{1, 100}}}
+		labels = c15RaceLabels([4]int64{0, 0, 0, 0}, [4]int64{1, 0, 0, 0}, [4]int64{0, 1, 0, 0}, [4]int64{1, 1, 0, 0},
+			[4]int64{0, 3, 0, 0}, [4]int64{1, 3, 0, 0}, [4]int64{0, 0, 1, 0}, [4]int64{1, 0, 1, 0},
+			[4]int64{0, 2, 0, 0}, [4]int64{1, 2, 0, 0}, [4]int64{2, 0, 0, 0}, [4]int64{0, 4, 0, 0})
+	} else {
+		// subscription 0 (closed while Subscribe 1 ran); emitter 0 is created afterwards
+		cfg = c15Cfg{ntypes: 1, emitters: []c15Emitter{{0, false}}, subs: []c15Sub{{false, 1, []int{0}}, {false, 1, []int{0}}}, emits: []c15Emit{{0, 100}}}
+		labels = c15RaceLabels([4]int64{0, 3, 0, 0}, [4]int64{1, 3, 0, 0}, [4]int64{0, 4, 0, 0}, [4]int64{1, 4, 0, 0},
+			[4]int64{0, 3, 1, 0}, [4]int64{1, 3, 1, 0}, [4]int64{0, 0, 0, 0}, [4]int64{1, 0, 0, 0},
+			[4]int64{0, 2, 0, 0}, [4]int64{1, 2, 0, 0}, [4]int64{2, 1, 0, 0}, [4]int64{0, 4, 1, 0})
+	}
+	return c15Encode(cfg, labels), true
+}
+
+func c15RaceWild(it int, em event.Emitter, bus event.Bus) (line []int64, miss bool) {
+	w1, _ := bus.Subscribe(event.WildcardSubscription, BufSize(0))
+	stalled := make(chan struct{})
+	go func() { defer close(stalled); em.Emit(c15EvA{1}) }() // stalls on w1 until its Close drains
+	time.Sleep(20 * time.Microsecond)
+	var w2 event.Subscription
+	c15RacePair(func() { w1.Close() }, func() { w2, _ = bus.Subscribe(event.WildcardSubscription, BufSize(4)) }, it%64)
+	<-stalled
+	em.Emit(c15EvA{2})
+	miss = true
+	for miss {
+		select {
+		case e := <-w2.Out():
+			if e.(c15EvA).ID == 2 {
+				miss = false
+			}
+			continue // the stalled Emit may have started late and seen w2 already
+		default:
+		}
+		break
+	}
+	w2.Close()
+	if !miss && !c15RaceForce {
+		return nil, false
+	}
+	cfg := c15Cfg{ntypes: 1, emitters: []c15Emitter{{0, false}}, subs: []c15Sub{{true, 0, nil}, {true, 4, nil}}, emits: []c15Emit{{0, 1}, {0, 2}}}
+	labels := c15RaceLabels([4]int64{0, 0, 0, 0}, [4]int64{1, 0, 0, 0}, [4]int64{0, 3, 0, 0}, [4]int64{1, 3, 0, 0},
+		[4]int64{0, 2, 0, 0}, [4]int64{0, 4, 0, 0}, [4]int64{1, 4, 0, 0}, [4]int64{1, 2, 0, 0},
+		[4]int64{0, 3, 1, 0}, [4]int64{1, 3, 1, 0}, [4]int64{0, 2, 1, 0}, [4]int64{1, 2, 1, 0}, [4]int64{2, 1, 0, 0}, [4]int64{0, 4, 1, 0})
+	return c15Encode(cfg, labels), true
+}
+
+func TestVerifC15Race(t *testing.T) {
+	out, err := verifh.Open()
+	if err != nil {
+		t.Fatal(err)
+	}
+	if runtime.GOMAXPROCS(0) < 4 {
+		defer runtime.GOMAXPROCS(runtime.GOMAXPROCS(4))
+	}
+	iters, budget := 40000, 60*time.Second
+	if verifh.Tier() == "thorough" {
+		iters, budget = 300000, 240*time.Second
+	}
+	deadline := time.Now().Add(budget)
+	wbus := NewBus(withLogger(slog.New(slog.DiscardHandler)))
+	wem, _ := wbus.Emitter(new(c15EvA))
+	n := 0
+	for it := 0; it < iters && time.Now().Before(deadline); it++ {
+		var line []int64
+		var miss bool
+		switch it % 4 {
+		case 0, 1:
+			line, miss = c15RaceTyped(it/4, false)
+		case 2:
+			line, miss = c15RaceTyped(it/4, true)
+		default:
+			line, miss = c15RaceWild(it/4, wem, wbus)
+		}
+		n++
+		if c15RaceForce && line != nil {
+			out.Case(line)
+			if it >= 3 {
+				break
+			}
+			continue
+		}
+		if miss {
+			out.Case(line)
+			out.Cover(fmt.Sprintf("race.miss.kind%d", it%4))
+			fmt.Printf("C15RACE miss at iteration %d (kind %d)\n", it, it%4)
+			break
+		}
+	}
+	out.CoverN("race.iterations", int64(n))
+	if err := out.Close(); err != nil {
+		t.Fatal(err)
+	}
 }
